@@ -203,16 +203,20 @@ def cmp_streams(go_streams, model_streams, scale=1.0):
 
 
 # ---------------------------------------------------------------- Lean obligations
+EXTRA_MODULES = {'C01': ['C01Gen']}
+
+
 def lean_obligations(prop):
-    """Build Props.<prop>, list its theorems and their axioms. Returns dict."""
+    """Build Props.<prop> (and its generated companions), list the theorems and their axioms."""
     mod = 'IndicatorVerif.Props.' + prop
+    mods = [mod] + ['IndicatorVerif.Props.' + m for m in EXTRA_MODULES.get(prop, [])]
     t0 = time.time()
-    ok, msg = build_lean((mod, 'IndicatorVerif.Audit'))
+    ok, msg = build_lean(tuple(mods) + ('IndicatorVerif.Audit',))
     res = {'module': mod, 'build_ok': ok, 'theorems': [], 'bad': [], 'build_msg': '' if ok else msg,
            'checker_cmd': 'cd lean && lake build %s && lake env lean <audit of %s>' % (mod, mod)}
     if not ok:
         return res
-    src = 'import IndicatorVerif.Audit\nimport %s\n#audit_module %s\n' % (mod, mod)
+    src = 'import IndicatorVerif.Audit\n' + ''.join('import %s\n' % m for m in mods) + ''.join('#audit_module %s\n' % m for m in mods)
     d = tempfile.mkdtemp(prefix='ivaudit')
     try:
         path = os.path.join(d, 'AuditRun.lean')
